@@ -18,7 +18,7 @@ def sh(cmd, cwd=None, timeout=1800):
     return p.returncode, p.stdout + p.stderr
 
 
-def confirm(src, pid):
+def confirm(src, pid, offset=0):
     wt = "/tmp/mutconfirm"
     sh("git -C %s worktree remove --force %s" % (REPO, wt))
     rc, out = sh("git -C %s worktree add -q --detach %s HEAD" % (REPO, wt))
@@ -27,6 +27,8 @@ def confirm(src, pid):
     try:
         for d in sorted(glob.glob(os.path.join(src, "m*"))):
             k = os.path.basename(d)
+            if offset:
+                k = "m%d" % (int(k[1:]) + offset)
             sid = "%s-%s" % (pid, k)
             patch, demo, meta = (os.path.join(d, x) for x in ("patch.diff", "demo_test.go", "meta.json"))
             if not all(os.path.exists(x) for x in (patch, demo, meta)):
@@ -105,7 +107,7 @@ def run(ids, props=None, tier="quick"):
 if __name__ == "__main__":
     a = sys.argv[1:]
     if a[0] == "import":
-        print(confirm(a[1], a[2]))
+        print(confirm(a[1], a[2], int(a[3]) if len(a) > 3 else 0))
     elif a[0] == "run":
         props = None
         tier = "quick"
